@@ -228,9 +228,55 @@ def derived : Op
         | some evs => .list (evs.map eventVal)))]
   | _ => none
 
+/-- one call of `C10.resim`: `["set", dose, start, duration, period|n, num|n]`, `["protocol", events]`,
+    `["solve", q]` -/
+def parseSimCall : Val → Option (Except Err SimCall)
+  | .list [.str "set", dv, sv, duv, pv, nv] => do
+    let dose ← Val.rat? dv
+    let start ← Val.rat? sv
+    let dur ← Val.rat? duv
+    let period ← Val.opt? Val.rat? pv
+    let num ← Val.opt? Val.int? nv
+    match regimenToEvent dose start dur period num with
+    | .error e => some (.error e)
+    | .ok e => some (.ok (.set (some [e])))
+  | .list [.str "protocol", ev] => do
+    let es ← parseEvents ev
+    some (.ok (.set (some es)))
+  | .list [.str "solve", .int q] => if q < 0 then none else some (.ok (.solve q.toNat))
+  | _ => none
+
+def parseSimCalls : List Val → Option (Except Err (List SimCall))
+  | [] => some (.ok [])
+  | v :: rest =>
+    match parseSimCall v with
+    | none => none
+    | some (.error e) => some (.error e)
+    | some (.ok c) =>
+      match parseSimCalls rest with
+      | none => none
+      | some (.error e) => some (.error e)
+      | some (.ok cs) => some (.ok (c :: cs))
+
+/-- `C10.resim calls`: ONE never-dosed object, then the calls → per solve `[q, events | n]` (what that
+    solve is run with), and the regimen in force at the end -/
+def resim : Op
+  | [cv] => do
+    let cl ← cv.list?
+    let regVal : Regimen → Val := fun r =>
+      match r with
+      | none => .none
+      | some evs => .list (evs.map eventVal)
+    match ← parseSimCalls cl with
+    | .error e => some [errVal (errName e)]
+    | .ok cs => some [.str "ok",
+        .list ((simTrace none cs).map (fun (q, r) => .list [.int q, regVal r])),
+        regVal (simRegimen none cs)]
+  | _ => none
+
 def ops : List (String × Op) :=
   [("C10.event", event), ("C10.pace", paceOp), ("C10.pacemulti", paceMultiOp),
    ("C10.table", table), ("C10.rows", rows), ("C10.setdata", setData), ("C10.surgery", surgery),
-   ("C10.frame", frame), ("C10.likelihoods", likelihoods), ("C10.derived", derived)]
+   ("C10.frame", frame), ("C10.likelihoods", likelihoods), ("C10.derived", derived), ("C10.resim", resim)]
 
 end ChiDriver.C10
